@@ -129,6 +129,49 @@ structure App where
   time : Int
   deriving DecidableEq, Repr, Inhabited
 
+/-! ### facts read from the source tree (Tie A): the model is parametrised by them -/
+
+inductive Wrapper where
+  | authzExec | groupProposal | govProposal
+  deriving DecidableEq, Repr, Inhabited
+
+structure AnteFacts where
+  /-- message types `nestedMsgs` unwraps -/
+  unwrapped : List Wrapper
+  /-- blocked x/staking kinds (numbering of `Msg.staking`) -/
+  blocked : List Nat
+  /-- the staking / withdraw decorators let everything through while `height ≤ gate` -/
+  gate : Int
+  withdrawGate : Int
+  commissionGate : Int
+  deriving Repr, DecidableEq
+
+/-- limiter configuration (simapp/ante.go) -/
+structure LimiterCfg where
+  doGenTx : Bool
+  floor : Int
+  ceil : Int
+  deriving Repr, DecidableEq
+
+/-- constants and operators of the 30 % rule, of `MsgSetPower.Validate` and of the BeginBlocker -/
+structure LimitFacts where
+  mul : Nat
+  pct : Nat
+  /-- `true`: rejected when `percent ≥ pct`; `false`: when `percent > pct` -/
+  ge : Bool
+  heightGate : Int
+  minPower : Nat
+  /-- `true`: powers above MaxInt64 are rejected by Validate -/
+  maxInt64 : Bool
+  beginGate : Int
+  deriving Repr, DecidableEq
+
+structure Env where
+  ante : AnteFacts
+  limiter : LimiterCfg
+  lim : LimitFacts
+  deriving Repr, DecidableEq
+
 /-- special time stamps: Go's zero `time.Time{}` and the Unix epoch; block times are `≥ 0` -/
 def tZero : Int := -2
 def tEpoch : Int := -1
